@@ -2,7 +2,7 @@
    relies on) on the same inputs as the implementation and compare bit for bit.
    Modes are signed (Z) as in Python; tensors of the generated cases carry the labels 0..n-1. *)
 From Coq Require Import List Arith ZArith Bool Uint63.
-From TLV Require Import Base.Shape Base.PyList Base.Tensor Model.Base Model.BaseExt Model.BasePy Corr.Common.
+From TLV Require Import Base.Shape Base.PyList Base.Tensor Model.Base Model.BaseExt Model.BasePy Model.BasePyCore Corr.Common.
 Import ListNotations.
 
 (* Case literals: tensor data are packed, w bits per entry and 60/w entries per primitive 63-bit
@@ -55,8 +55,8 @@ Definition run (o : op) (t : tensor Z) : res (tensor Z) :=
   end.
 
 (* The same request on the statement-by-statement model of Model/BasePy.v (what the ast translator regenerates from the
-   source), on the TYPED NumPy backend: arrays carry a dtype tag (an integer code chosen by the harness).  The generic
-   Backend.moveaxis is not a function of base.py and has no g_ counterpart. *)
+   source), on the TYPED NumPy backend: arrays carry a dtype tag (an integer code chosen by the harness).  OMoveG is the
+   statement-by-statement model of the generic Backend.moveaxis of core.py (Model/BasePyCore.v). *)
 Definition zspec (spec : list (option nat)) : list Z := map (fun o => match o with Some n => Z.of_nat n | None => (-1)%Z end) spec.
 Definition TB := typed 0%Z Z.
 Definition run_g (o : op) (a : ndarray Z Z) : option (res (ndarray Z Z)) :=
@@ -71,7 +71,7 @@ Definition run_g (o : op) (a : ndarray Z Z) : option (res (ndarray Z Z)) :=
   | OPUnvec s sb se => Some (g_partial_vec_to_tensor TB a (map Z.of_nat s) (Z.of_nat sb) (Z.of_nat se))
   | OMat rows cols => Some (g_matricize TB a rows cols)
   | OMove x y => Some (b_moveaxis TB a x y)
-  | OMoveG _ _ => None
+  | OMoveG x y => Some (g_moveaxis_generic TB a x y)
   | OTrans p => Some (b_transpose TB a (map Z.of_nat p))
   | OReshape spec => Some (b_reshape TB a (zspec spec))
   end.
